@@ -15,6 +15,7 @@ import (
 
 var (
 	oneHalf = NewDecimal(5, -1)
+	one     = NewDecimal(1, 0)
 	three   = NewDecimal(3, 0)
 )
 
@@ -48,12 +49,10 @@ func (z *Decimal) Sqrt(x *Decimal) *Decimal {
 		return z
 	}
 
-	// MantExp sets the argument's precision to the receiver's, and
-	// when z.prec > x.prec this will lower z.prec. Restore it after
-	// the MantExp call.
+	// MantExp sets the argument's precision and rounding mode to the
+	// receiver's. Restore them when rounding the result.
 	prec, mode := z.prec, z.mode
 	b := x.MantExp(z)
-	z.prec, z.mode = prec, mode
 
 	// Compute √(z·10**b) as
 	//   √( z)·10**(½b)     if b is even
@@ -69,14 +68,98 @@ func (z *Decimal) Sqrt(x *Decimal) *Decimal {
 	}
 	// 0.01 <= z < 10.0
 
+	// keep the scaled operand for the final rounding (z may be x)
+	x0 := new(Decimal).Copy(z)
+
 	// Unlike with big.Float, solving x² - z = 0 directly is faster only for
 	// very small precisions (<_DW/2).
 	//
-	// Solve 1/x² - z = 0 instead.
+	// Solve 1/x² - z = 0 instead, with two guard digits.
+	z.prec = prec
+	if z.prec <= MaxPrec-2 {
+		z.prec += 2
+	}
+	z.mode = ToNearestEven
 	z.sqrtInverse(z)
 
-	// restore precision and re-attach halved exponent
-	return z.SetMantExp(z, b/2)
+	// round to prec digits according to mode
+	z.sqrtRound(x0, prec, mode)
+
+	// re-attach halved exponent (exact)
+	acc := z.acc
+	z.SetMantExp(z, b/2)
+	z.acc = acc
+	return z
+}
+
+// sqrtRound sets z, which must be an approximation of √x, to √x correctly
+// rounded to prec digits according to mode, and sets z's precision, rounding
+// mode and accuracy accordingly. The product of the approximate inverse square
+// root with x is only a faithful rounding of √x, so the correct result is
+// determined by comparing squares with x, which is exact.
+func (z *Decimal) sqrtRound(x *Decimal, prec uint32, mode RoundingMode) {
+	// truncate z to prec digits
+	z.mode = ToZero
+	z.SetPrec(uint(prec))
+	z.mode = mode
+
+	// t holds squares of numbers of up to prec+1 digits exactly, n such numbers.
+	var t, n, u Decimal
+	t.prec = MaxPrec
+	if prec <= (MaxPrec-4)/2 {
+		t.prec = 2*prec + 4
+	}
+	n.prec = prec + 1
+	if n.prec == 0 {
+		n.prec = MaxPrec
+	}
+	// u is one unit in the last place of z
+	ulp := func() { u.SetMantExp(one, int(z.exp)-int(prec)) }
+	ulp()
+
+	// make z the largest prec digits number such that z² <= x
+	for t.Mul(z, z).Cmp(x) > 0 {
+		if z.MinPrec() == 1 && z.mant[len(z.mant)-1] == _DB/10 {
+			// z is a power of ten: numbers below it are ten times denser
+			u.SetMantExp(one, int(z.exp)-int(prec)-1)
+		}
+		z.Sub(z, &u)
+		ulp()
+	}
+	for t.Mul(n.Add(z, &u), &n).Cmp(x) <= 0 {
+		z.Set(&n)
+		ulp()
+	}
+	// z² <= x < (z+u)²
+
+	z.acc = Exact
+	if t.Mul(z, z).Cmp(x) == 0 {
+		return
+	}
+
+	inc := false
+	switch mode {
+	case ToZero, ToNegativeInf:
+		// nothing to do
+	case AwayFromZero, ToPositiveInf:
+		inc = true
+	default:
+		// compare x to the square of the midpoint z + u/2
+		n.Add(z, n.Mul(&u, oneHalf))
+		switch c := t.Mul(&n, &n).Cmp(x); {
+		case c < 0:
+			inc = true
+		case c == 0:
+			// tie
+			d := int64(len(z.mant))*_DW - int64(prec) // index of the last digit of z
+			inc = mode == ToNearestAway || d >= 0 && z.mant.digit(uint(d))&1 != 0
+		}
+	}
+	z.acc = Below
+	if inc {
+		z.Add(z, &u)
+		z.acc = Above
+	}
 }
 
 // Compute √x (to z.prec precision) by solving
